@@ -244,6 +244,7 @@ func checkC07(c *km.Ctx) {
 	checkSQLArgKinds(c, "R-C07-2")
 	checkStmtTableKeys(c, "R-C07-2")
 	checkEvictionReachesPrimary(c, "R-C07-2")
+	checkLocalCopyOnlyOnSilence(c, "R-C07-2")
 	// an eviction reaches the offline copy through the synchronisation: the copy is replaced by the primary's
 	// content at every run (C15's mirror obligations, as this property's own) - otherwise a hash evicted from the
 	// primary keeps deciding in the next outage
@@ -1038,4 +1039,57 @@ func checkEvictionReachesPrimary(c *km.Ctx, rule string) {
 		return
 	}
 	c.R.Add(rule, km.FuncName(fn), "eviction reaches the primary store", posOf(c, first), "no return before the first operation on the primary database", "return at "+early, early == "")
+}
+
+// checkLocalCopyOnlyOnSilence: an eviction removes the record from the primary; the local copy keeps it until the
+// next synchronisation. GetSigned may therefore read the local copy only when the primary did not answer (the
+// timeout arm of its select): if "the primary answered: no such record" also falls through to the local copy,
+// the evicted hash is back for as long as the copy is stale.
+func checkLocalCopyOnlyOnSilence(c *km.Ctx, rule string) {
+	gs := c.MustFunc(rule, "cmd/keymasterd", "(*RuntimeState).GetSigned")
+	if gs == nil {
+		return
+	}
+	sem := km.NewSem(c)
+	n := 0
+	for _, f := range callsWithNewHelpersFuncs(c, gs, 1) {
+		// the select between the primary's answer and the timer
+		var sel *ssa.Select
+		timeoutIdx := -1
+		km.Instrs(f, func(in ssa.Instruction) {
+			sl, ok := in.(*ssa.Select)
+			if !ok || len(sl.States) != 2 {
+				return
+			}
+			for i, st := range sl.States {
+				if cl, isC := km.Unwrap(st.Chan).(*ssa.Call); isC && km.CalleeFull(cl.Common()) == "time.After" {
+					sel, timeoutIdx = sl, i
+				}
+			}
+		})
+		for _, ci := range km.CallsIn(f) {
+			if km.CalleeFull(ci.Common()) != "(*database/sql.DB).Prepare" || !mentionsField(ci.Common().Args[0], "cacheDB") {
+				continue
+			}
+			n++
+			if sel == nil {
+				c.R.Add(rule, km.FuncName(f), "local copy read only when the primary is silent", posOf(c, ci), "the read of cacheDB lies on the timeout arm of the select over the primary's answer", "no select between the primary's answer and a timer in this function", false)
+				continue
+			}
+			silent := km.Prim{Name: "primary did not answer", Direct: func(fc km.Fact) bool {
+				ex, ok := fc.X.(*ssa.Extract)
+				if !ok || ex.Tuple != ssa.Value(sel) || ex.Index != 0 || fc.Y == nil {
+					return false
+				}
+				k, isK := km.ConstInt(fc.Y)
+				return isK && ((fc.Op == token.EQL && int(k) == timeoutIdx) || (fc.Op == token.NEQ && int(k) == 1-timeoutIdx))
+			}}
+			st := c.F.At(ci)
+			ok := len(st) > 0 && st.All(func(k km.Conj) bool { return sem.Holds(k, silent) })
+			c.R.Add(rule, km.FuncName(f), "local copy read only when the primary is silent", posOf(c, ci), "the read of cacheDB lies on the timeout arm of the select over the primary's answer", clipS(st.String(), 200), ok)
+		}
+	}
+	if n == 0 {
+		c.R.AnchorLost(rule, "read of cacheDB in GetSigned")
+	}
 }
